@@ -230,7 +230,7 @@ def _explode(recs):
     return out
 
 
-def diff_method(ref_m, cur_m, field_filter, want_returns=True, want_appends=True):
+def diff_method(ref_m, cur_m, field_filter, want_returns=True, want_appends=True, append_filter=None):
     """List of (kind, detail) differences between reference and current wiring of one method, restricted to selected fields."""
     out = []
     rr = [(c, {k: v for k, v in f.items() if field_filter(c, k)}) for c, f in ref_m.get("records", [])]
@@ -279,8 +279,8 @@ def diff_method(ref_m, cur_m, field_filter, want_returns=True, want_appends=True
     if want_appends:
         def norm_app(a):
             return sorted((tgt, tuple(sorted(p)), op) for tgt, lst in a.items() for provs, op in lst for p in [provs])
-        ra2 = {(tgt, v, op) for tgt, lst in ref_m.get("appends", {}).items() for provs, op in lst for v in provs}
-        ca2 = {(tgt, v, op) for tgt, lst in cur_m.get("appends", {}).items() for provs, op in lst for v in provs}
+        ra2 = {(tgt, v, op) for tgt, lst in ref_m.get("appends", {}).items() for provs, op in lst for v in provs if append_filter is None or append_filter(tgt, op)}
+        ca2 = {(tgt, v, op) for tgt, lst in cur_m.get("appends", {}).items() for provs, op in lst for v in provs if append_filter is None or append_filter(tgt, op)}
         if ra2 != ca2:
             out.append(("appends", f"expected {sorted(ra2 - ca2)} found {sorted(ca2 - ra2)}"))
     return out
